@@ -96,6 +96,7 @@ func (pg *PERIOGroup) stopTicker() {
 
 type Server struct {
 	evtCh     chan Event
+	done      chan struct{}                 // closed when Serve has returned
 	perioList map[time.Duration]*PERIOGroup // key: period
 
 	handler  report.Handler
@@ -105,6 +106,7 @@ type Server struct {
 func OpenServer(wg *sync.WaitGroup) (*Server, error) {
 	s := &Server{
 		evtCh:     make(chan Event, EVENT_CHANNEL_LEN),
+		done:      make(chan struct{}),
 		perioList: make(map[time.Duration]*PERIOGroup),
 	}
 
@@ -114,8 +116,11 @@ func OpenServer(wg *sync.WaitGroup) (*Server, error) {
 	return s, nil
 }
 
+// Close stops the server and returns once it has stopped: the caller goes on to
+// close the netlink sockets a query in progress still needs.
 func (s *Server) Close() {
 	s.evtCh <- Event{eType: TYPE_SERVER_CLOSE}
+	<-s.done
 }
 
 func (s *Server) Handle(
@@ -130,6 +135,7 @@ func (s *Server) Serve(wg *sync.WaitGroup) {
 	logger.PerioLog.Infof("perio server started")
 	defer func() {
 		logger.PerioLog.Infof("perio server stopped")
+		close(s.done)
 		wg.Done()
 	}()
 
